@@ -693,9 +693,13 @@ func main() {
 					{Op: "create", Type: ty, Shape: "ptr_slice_val", Recs: []RecIn{{Tag: 101, Val: 1}, {Tag: 102, Val: 2}, {Tag: 103, Val: 3}}, SetAll: true, Sets: []int{0, 3}},
 					{Op: "updates", Type: ty, Shape: "struct", Recs: []RecIn{{ID: 1, Tag: 1, Val: 10}}, Seed: g.seed(2), Pay: 64, PayVia: "map_db"},
 					{Op: "delete", Type: ty, Shape: "struct", Recs: []RecIn{{ID: 1, Tag: 1, Val: 10}}, Seed: g.seed(2)},
+					{Op: "delete", Type: ty, Shape: "array_val", Recs: []RecIn{{ID: 1, Tag: 1, Val: 10}, {ID: 2, Tag: 2, Val: 20}}, Seed: g.seed(2)},
 				}
 				for _, in := range d {
 					in.Skip, in.TxMode = sk, txm
+					if sk && (in.Shape == "array_val" || in.Shape == "struct") {
+						continue // not reachable through a pointer and no hook phase to answer ErrInvalidValue: outside the domain
+					}
 					if sig(in) != "" {
 						continue // a known-finding shape: corpus only
 					}
